@@ -135,15 +135,16 @@ type Proxy struct {
 
 // GW is a running gateway process.
 type GW struct {
-	Cfg     Config
-	Addr    string // 127.0.0.1:port
-	URL     string // http://127.0.0.1:port
-	LogPath string
-	cmd     *exec.Cmd
-	done    chan struct{}
-	waitErr error
-	mu      sync.Mutex
-	reqLog  *os.File
+	Cfg       Config
+	Addr      string // 127.0.0.1:port
+	AdminAddr string // separate admin listener (Config.AdminPort), "" otherwise
+	URL       string // http://127.0.0.1:port
+	LogPath   string
+	cmd       *exec.Cmd
+	done      chan struct{}
+	waitErr   error
+	mu        sync.Mutex
+	reqLog    *os.File
 }
 
 func FreePort() (int, error) {
@@ -192,6 +193,15 @@ func start1(bin string, cfg Config) (*GW, error) {
 	args := []string{"--port", addr, "--iam-dir", cfg.Store.IAMDir, "--health", "/health", "--quiet"}
 	if cfg.Readonly {
 		args = append(args, "--readonly")
+	}
+	adminAddr := ""
+	if cfg.AdminPort {
+		ap, err := FreePort()
+		if err != nil {
+			return nil, err
+		}
+		adminAddr = fmt.Sprintf("127.0.0.1:%d", ap)
+		args = append(args, "--admin-port", adminAddr)
 	}
 	if cfg.Webhook != "" {
 		args = append(args, "--event-webhook-url", cfg.Webhook)
@@ -250,7 +260,7 @@ func start1(bin string, cfg Config) (*GW, error) {
 		return nil, err
 	}
 	lf.Close()
-	g := &GW{Cfg: cfg, Addr: addr, URL: "http://" + addr, LogPath: logPath, cmd: cmd, done: make(chan struct{})}
+	g := &GW{Cfg: cfg, Addr: addr, AdminAddr: adminAddr, URL: "http://" + addr, LogPath: logPath, cmd: cmd, done: make(chan struct{})}
 	go func() {
 		g.waitErr = cmd.Wait()
 		close(g.done)
